@@ -376,7 +376,10 @@ def sx_rewrite(syn, tree, values, found):
             if m is not None:
                 k = json.dumps(m, sort_keys=True)
                 found.append(m)
-                if values is not None and k in values:
+                if values is None:              # collecting: a maximal match is one expression
+                    out.append(x)
+                    continue
+                if k in values:
                     out.append(syn.literal(values[k]))
                     continue
             out.append(sx_rewrite(syn, x, values, found))
@@ -424,13 +427,24 @@ def c_rewrite(tree, values, found):
     def value(m):
         k = json.dumps(m, sort_keys=True)
         found.append(m)
-        return values.get(k) if values is not None else None
+        return values.get(k) if values is not None else 0      # collecting: a maximal match is one expression
 
+    BEFORE = (None, "=", ",", "return", "?", ":")
+    AFTER = (None, ";", ",", "?", ":")
     out = []
     i = 0
     n = len(tree)
     while i < n:
         x = tree[i]
+        # an unparenthesised chain that is a whole operand: X << 31L | nL between = , ; ( )
+        if i + 5 <= n and (tree[i - 1] if i > 0 else None) in BEFORE and (tree[i + 5] if i + 5 < n else None) in AFTER:
+            m = c_chain(tree[i:i + 5])
+            if m is not None:
+                v = value(m)
+                if v is not None:
+                    out += lit(v)
+                    i += 5
+                    continue
         # - ( chain )
         if x == "-" and i + 1 < n and isinstance(tree[i + 1], list):
             m = c_chain(tree[i + 1])
@@ -451,15 +465,6 @@ def c_rewrite(tree, values, found):
             out.append(c_rewrite(x, values, found))
             i += 1
             continue
-        # an unparenthesised chain filling a whole argument: X << 31L | nL delimited by , or the list ends
-        if i + 5 <= n and (i == 0 or tree[i - 1] == ",") and (i + 5 == n or tree[i + 5] == ","):
-            m = c_chain(tree[i:i + 5])
-            if m is not None:
-                v = value(m)
-                if v is not None:
-                    out += lit(v)
-                    i += 5
-                    continue
         out.append(x)
         i += 1
     return out
